@@ -692,6 +692,108 @@ def validate_bind_returned(chk: Check) -> list[dict]:
     return bad
 
 
+# ----------------------------------------------------------------------------- fixed program suite
+
+
+def programs():
+    """Small well-typed compositions outside the plugin metadata (fixed, seed-independent): weak-typed
+    literals against integer arrays, crossed clamp bounds, index clamping, fusions of arithmetic patterns."""
+    import jax
+    import jax.numpy as jnp
+    from jax import lax
+    f, I = np.float32, np.int32
+    xi = np.array([1, 2, 3, -4], I)
+    sq = (np.arange(9, dtype=f).reshape(3, 3) - 3.5)
+    a, b = np.array([1, 2, 7, -3, -7], I), np.array([2, 5, 8, -4, 2], I)
+    v6 = np.arange(6, dtype=I)
+    P = [
+        ("maximum_int_floatlit", lambda v: jnp.maximum(v, 1.5), [xi]),
+        ("minimum_int_floatlit", lambda v: jnp.minimum(v, 1.5), [xi]),
+        ("add_int_floatlit", lambda v: jnp.add(v, 0.5), [xi]),
+        ("subtract_int_floatlit", lambda v: jnp.subtract(v, 0.5), [xi]),
+        ("multiply_int_floatlit", lambda v: v * 0.5, [xi]),
+        ("clip_int_floatlit", lambda v: jnp.clip(v, -0.5, 2.5), [xi]),
+        ("power_int_floatlit", lambda v: jnp.power(v, 1.5), [np.array([1, 4, 9], I)]),
+        ("where_int_floatlit", lambda v: jnp.where(v > 1, v, 0.5), [xi]),
+        ("where_floatlit_int", lambda v: jnp.where(v > 1, 2.5, v), [xi]),
+        ("where_int_intlit", lambda v: jnp.where(v > 1, v, 7), [xi]),
+        ("clamp_crossed_i32", lambda lo, v, hi: lax.clamp(lo, v, hi),
+         [np.array([3, 3, 3, -1], I), np.array([0, 2, 5, 9], I), np.array([1, 1, 1, -5], I)]),
+        ("clamp_crossed_f32", lambda lo, v, hi: lax.clamp(lo, v, hi),
+         [np.array([3, 3, 3, -1], f), np.array([0, 2, 5, 9], f), np.array([1, 1, 1, -5], f)]),
+        ("clip_crossed", lambda v: jnp.clip(v, 3, 1), [np.array([0, 2, 5], I)]),
+        ("clamp_scalar_bounds", lambda v: lax.clamp(-1.5, v, 2.5), [np.array([-4.0, -1.5, 0.0, 2.5, 7.0], f)]),
+        ("norm_axis1_square", lambda m: m / jnp.linalg.norm(m, axis=1), [sq]),
+        ("norm_axis1_keepdims", lambda m: m / jnp.linalg.norm(m, axis=1, keepdims=True), [sq]),
+        ("norm_axis0_square", lambda m: m / jnp.linalg.norm(m, axis=0), [sq]),
+        ("div_sum_2_int", lambda p_, q: lax.div(p_ + q, 2), [a, b]),
+        ("floor_divide_sum_2_int", lambda p_, q: (p_ + q) // 2, [a, b]),
+        ("mean_of_two_float", lambda p_, q: (p_ + q) / 2, [a.astype(f), b.astype(f)]),
+        ("dynamic_slice_in_range", lambda v, i: lax.dynamic_slice(v, (i[0],), (3,)), [v6, np.array([2], I)]),
+        ("dynamic_slice_start_too_large", lambda v, i: lax.dynamic_slice(v, (i[0],), (3,)), [v6, np.array([5], I)]),
+        ("dynamic_slice_start_negative", lambda v, i: lax.dynamic_slice(v, (i[0],), (3,)), [v6, np.array([-2], I)]),
+        ("dynamic_update_slice_start_too_large", lambda v, u, i: lax.dynamic_update_slice(v, u, (i[0],)),
+         [v6, np.array([7, 8, 9], I), np.array([5], I)]),
+        ("take_clip", lambda v, i: jnp.take(v, i, mode="clip"), [v6, np.array([-1, 7, 3], I)]),
+        ("index_negative", lambda v, i: v[i], [v6, np.array([-1, 5, 3, -6], I)]),
+        ("divmod_identity", lambda p_, q: jnp.floor_divide(p_, q) * q + jnp.mod(p_, q), [a, b]),
+        ("truncdiv_identity", lambda p_, q: lax.div(p_, q) * q + lax.rem(p_, q), [a, b]),
+        ("sign_abs", lambda v: lax.sign(v) * lax.abs(v), [xi]),
+        ("select_compare_chain", lambda p_, q: lax.select(lax.lt(p_, q), lax.max(p_, q), lax.min(p_, q)) - lax.neg(p_), [a, b]),
+        ("round_half_cases", lambda v: (lax.round(v), jnp.round(v), lax.floor(v), lax.ceil(v)),
+         [np.array([0.5, 1.5, 2.5, -0.5, -1.5, -2.5, 0.49999997, -0.49999997], f)]),
+        ("argmax_cumsum", lambda v: (jnp.argmax(v), jnp.cumsum(v)[::-1], lax.cumsum(v, reverse=True)),
+         [np.array([1, 3, 3, 2, 3], I)]),
+    ]
+    return P
+
+
+def validate_programs(chk: Check) -> list[dict]:
+    """ORT(to_onnx(program)) vs eager JAX (evaluated first) on the program's fixed inputs: values, dtype kind,
+    shapes."""
+    import jax
+    import jax.numpy as jnp
+    import c01_explore as X
+    from jax2onnx import to_onnx
+    out = []
+    for name, fn, xs in programs():
+        res: dict[str, Any] = {"program": name}
+        try:
+            j32 = X._flat_outputs(fn(*[jnp.asarray(x) for x in xs]))
+            try:
+                j64 = X.jax_eval(fn, xs, {}, True)
+            except Exception:
+                j64 = None
+            try:
+                model = to_onnx(fn, [jax.ShapeDtypeStruct(x.shape, x.dtype) for x in xs], model_name=name)
+            except Exception as e:
+                res.update({"status": "export_error", "cls": "export_error", "error": f"{type(e).__name__}: {e}"[:200]})
+                raise StopIteration
+            try:
+                sess = X.ort_session(model)
+                o = sess.run(None, X.ort_feed(sess, xs, {}, None))
+            except Exception as e:
+                res.update({"status": "ort_error", "cls": "ort_rejects_or_fails", "error": str(e)[:200]})
+                raise StopIteration
+            c = X.compare(o, j32, j64, False, None)
+            res.update(c)
+            if c["status"] == "mismatch":
+                res["cls"] = failure_class({"status": "mismatch", **c})
+                res["ort_outputs"] = [np.asarray(v).reshape(-1)[:8].tolist() for v in o]
+                res["jax_outputs"] = [np.asarray(v).reshape(-1)[:8].tolist() for v in j32]
+                res["inputs"] = [np.asarray(x).reshape(-1)[:12].tolist() for x in xs]
+        except StopIteration:
+            pass
+        chk.count({"stage": "program", "program": name, "status": res.get("status"), "cls": res.get("cls")},
+                  nontrivial=res.get("status") in ("ok", "mismatch"))
+        out.append(res)
+    by: dict[str, int] = {}
+    for r in out:
+        by[r.get("status", "?")] = by.get(r.get("status", "?"), 0) + 1
+    chk.info("program_suite", {"programs": len(out), "status_counts": by})
+    return out
+
+
 # ----------------------------------------------------------------------------- exploration
 
 
@@ -719,8 +821,10 @@ def explore(seed: int, rng: common.Rng, thorough: bool, budget_s: float) -> dict
     else:
         # seeded ~5 % sample of the f32 variants; cases known to be heavy (> 25 s) are left to thorough
         sel = [c for c in pool if rng.chance(0.05) and costs.get(c["id"], 0) <= 25]
-    kinds = X.KINDS if thorough else ["own", "half", "mag", "neg"]
-    jobs = [{"index": c["index"], "seed": seed, "kinds": kinds, "symval": 2 + (seed % 2)} for c in sel]
+    # the draws themselves do not depend on VERIF_SEED (closed world: thorough enumerates every outcome a quick
+    # run can see); VERIF_SEED only selects which testcases the quick tier runs
+    kinds = X.KINDS if thorough else X.KINDS[:4]
+    jobs = [{"index": c["index"], "seed": 0, "kinds": kinds, "symval": 2} for c in sel]
     nw = min(12, max(2, (os.cpu_count() or 4) - 4)) if thorough else min(8, max(2, (os.cpu_count() or 4) // 2))
     deadline = None if thorough else t0 + budget_s
     res = X.run_pool(jobs, nw, per_case_timeout=600.0 if thorough else 90.0, deadline=deadline)
@@ -885,6 +989,16 @@ def run(chk: Check) -> None:
     if bind_bad:
         chk.violation({"correspondence": "bind_returned_lowering_values differs from the proven model `bindReturned`",
                        "cases": bind_bad[:20]}, name="bind-returned-correspondence", no_failing_input=True)
+
+    # ---- fixed program suite (compositions outside the plugin metadata) -----------------------
+    for r in validate_programs(chk):
+        if r.get("status") not in ("ok",):
+            found_input = True
+            chk.finding({"where": "programs", "program": r["program"], "cls": r.get("cls")},
+                        f"program {r['program']}: {r.get('status')} {r.get('why') or r.get('error', '')}"[:240]
+                        + (f" ort={r.get('ort_outputs')} jax={r.get('jax_outputs')}" if r.get("ort_outputs") else ""),
+                        {"result": r, "how": "harness/props/c01.py validate_programs"})
+    chk.log(f"program suite done at {time.time() - t_start:.1f} s")
 
     # ---- exploration -----------------------------------------------------------------------
     ex = fut.result()
